@@ -70,6 +70,7 @@ why_missed.update({
  'C15-Br8': 'emitted-Lua value flow: the key local is trimmed of its padding but compared with the literal as written; what the emitted comparison sees is a property of the emitted program',
  'C17-Ar8': 'emitted-Go naming: one test function per match alternative named after the alternative\'s packet - two keys for one packet declare the function twice; needs the Go front end (a per-packet name emitted per key without de-duplication is decided for the Rust emitters only)',
  'C17-Br8': 'the Rust sample for a repeated packet member now recurses (termination: subsumed by the known C11/R finding of the Rust sample emitters, keyed by receiver type) and names a type the module does not import (emitted-Rust scoping)',
+ 'C04-Ar8': 'value-level: the back-patch slot is a constant offset from the start of the packet applied to the start of the buffer (a second frame in one buffer, a nested root packet); the size sum behind it asks every member whether it repeats, so no structural relation is broken',
  'C04-Br8': 'value-level: `lengthAt > 0` where the sentinel is -1 (a length field at index 0 is never linked); an off-by-one in an index comparison',
 })
 rows = []
